@@ -3,4 +3,6 @@ CONSTANTS
   Family = "full"
   MaxDepth = 2
   FullOps = "all"
+  AllAtomsUpTo = 2
+  DefaultFrom = 3
 INVARIANTS SpineOK FullOK Emit
